@@ -840,3 +840,72 @@ Section rt.
     destruct (P FUEL Hg) as (n1 & PE & CE). unfold load. rewrite PE. cbn [bind]. apply CE; [lia|]. unfold FUEL. lia.
   Qed.
 End rt.
+
+(* ---- the premises are decidable; the tie evaluates them on the generated cases to measure how many fall under the
+        theorem, and re-checks the conclusion there by evaluation ---- *)
+From Y Require Import WfDecide RegOrder.
+
+Definition is_none {A} (x : option A) : bool := match x with None => true | Some _ => false end.
+Definition flat_clsb (reg : registry) (k : cls) : bool :=
+  is_none (c_recognize k) && is_none (c_savorize k) && is_none (c_sweeten k) && negb (c_abstract k) &&
+  is_nil (direct_subclasses reg (c_name k)) && is_nil (registered_bases reg k) &&
+  match c_shape k with
+  | ShObj ps extra => negb extra && nodupb (map p_name ps) && negb (umem extra_name (map p_name ps)) && negb (umem self_name (map p_name ps))
+  | _ => true
+  end.
+Definition flatb (reg : registry) : bool :=
+  forallb (flat_clsb reg) reg && forallb (fun k => umem (c_name k) (c_ancestors k)) reg &&
+  is_none (find_cls reg (u "Path")).
+
+Lemma is_nil_eq {A} (l : list A) : is_nil l = true -> l = [].
+Proof. destruct l; [reflexivity | discriminate]. Qed.
+Lemma is_none_eq {A} (x : option A) : is_none x = true -> x = None.
+Proof. destruct x; [discriminate | reflexivity]. Qed.
+
+Theorem flatb_sound reg : flatb reg = true ->
+  flat reg /\ (forall c k, find_cls reg c = Some k -> In c (c_ancestors k)) /\ find_cls reg (u "Path") = None.
+Proof.
+  unfold flatb. intros H. apply andb_true_iff in H. destruct H as [H H3]. apply andb_true_iff in H. destruct H as [H1 H2].
+  rewrite forallb_forall in H1, H2. split; [|split].
+  - intros c k Ek. destruct (find_cls_In reg c k Ek) as [Hin Hn]. split; [|exact Hn].
+    specialize (H1 k Hin). unfold flat_clsb in H1.
+    repeat match type of H1 with (_ && _) = true => apply andb_true_iff in H1; let A := fresh "A" in destruct H1 as [H1 A] end.
+    unfold flat_cls. repeat split; try (apply is_none_eq; assumption); try (apply is_nil_eq; assumption);
+      try (apply negb_true_iff; assumption).
+    destruct (c_shape k) as [ps extra| |]; try exact I.
+    repeat match goal with A : (_ && _) = true |- _ => apply andb_true_iff in A; destruct A end.
+    repeat match goal with A : negb _ = true |- _ => apply negb_true_iff in A end.
+    repeat split.
+    + destruct extra; [discriminate | reflexivity].
+    + apply nodupb_sound. assumption.
+    + intros X. apply umem_In in X. congruence.
+    + intros X. apply umem_In in X. congruence.
+  - intros c k Ek. destruct (find_cls_In reg c k Ek) as [Hin Hn]. rewrite <- Hn. apply umem_In, H2, Hin.
+  - apply is_none_eq, H3.
+Qed.
+
+(* one correspondence case: 0 = outside the fragment, 1 = inside and the model's load gives the value back,
+   2 = inside and it does not (which would contradict C05_roundtrip_classes) *)
+Record rtcase := { rt_oracle : oracle; rt_specs : list Hooks.cls_spec; rt_value : value; rt_type : ty }.
+Definition rt_class (c : rtcase) : N :=
+  let o := rt_oracle c in let reg := Hooks.interp_reg o (rt_specs c) in
+  if flatb reg && ftype_r reg (rt_type c) && vt o reg 60 (rt_value c) (rt_type c) && leaves_ok o (rt_value c) then
+    match represent o reg 60 (rt_value c) with
+    | Ok n => match load o reg (Some n) (rt_type c) with
+              | Ok v => if value_eqb v (rt_value c) then 1 else 2
+              | Err _ => 2 end
+    | Err _ => 2
+    end
+  else 0.
+Definition rt_classes (l : list rtcase) : list N := map rt_class l.
+(* indices of the cases inside the fragment (i) and of those among them where evaluation contradicts the theorem (1000000 + i) *)
+Fixpoint rt_report_from (i : N) (l : list rtcase) : list N :=
+  match l with
+  | [] => []
+  | c :: r => match rt_class c with
+              | 0 => rt_report_from (i + 1) r
+              | 1 => i :: rt_report_from (i + 1) r
+              | _ => (1000000 + i) :: rt_report_from (i + 1) r
+              end
+  end.
+Definition rt_report (l : list rtcase) : list N := rt_report_from 0 l.
